@@ -473,6 +473,9 @@ impl JitCompiler {
     }
 
     fn emit_local_call(&mut self, mem: &mut JitMemory, target_pc: isize) {
+        // The four pushes and the return address take 40 bytes; pad to 48 so that the stack
+        // alignment seen by helper calls is the same at every call depth.
+        self.emit_alu64_imm32(mem, 0x81, 5, RSP, 8);
         self.emit_push(mem, map_register(6));
         self.emit_push(mem, map_register(7));
         self.emit_push(mem, map_register(8));
@@ -484,6 +487,7 @@ impl JitCompiler {
         self.emit_pop(mem, map_register(8));
         self.emit_pop(mem, map_register(7));
         self.emit_pop(mem, map_register(6));
+        self.emit_alu64_imm32(mem, 0x81, 0, RSP, 8);
     }
 
     fn jit_compile(
